@@ -112,6 +112,8 @@ pub struct Ctx {
     /// sids created-by-setup bookkeeping: logical resource -> created by harness setup
     pub created: Mutex<Vec<bool>>,
     pub log_events: AtomicBool,
+    /// async scenarios: number of `dispatch` operations issued so far
+    pub async_dispatched: AtomicU64,
 }
 
 impl Ctx {
@@ -135,6 +137,7 @@ impl Ctx {
             rdv: Mutex::new(Vec::new()),
             created: Mutex::new(vec![false; nres]),
             log_events: AtomicBool::new(true),
+            async_dispatched: AtomicU64::new(0),
         })
     }
 
